@@ -199,6 +199,8 @@ def run():
     quick = ck.tier == 'quick'
     texts = [t.replace('{p}', p) for t in TEMPLATES for p in PAYLOADS]
     texts += inputs.texts(ck.rng, 4000 if quick else 100000)
+    from . import docgen
+    texts += docgen.texts(ck, 600 if quick else 20000)
     for i in range(1000 if quick else 30000):
         texts.append(ck.rng.choice(TEMPLATES).replace('{p}', inputs.mutate(ck.rng, ck.rng.choice(PAYLOADS))) + '\n\n' +
                      ck.rng.choice(TEMPLATES).replace('{p}', ck.rng.choice(PAYLOADS)))
